@@ -1,5 +1,4 @@
-(* C41 — the size estimate against the (hand-modelled) serialized size:
-   real_size = estimate + (c16 #tables - 1) + sum over used tables of (c16 #writable - 1) + (c16 #readonly - 1). *)
+(* C41 — the size estimate against the (hand-modelled) serialized size: they are equal. *)
 From GV Require Import lib.Base C41.Model.
 From Coq Require Import Permutation.
 Open Scope Z_scope.
@@ -47,49 +46,26 @@ Lemma c16_small n : n <= 127 -> c16 n = 1.
 Proof. intros H. unfold c16. replace (n <=? 127) with true by (symmetry; apply Z.leb_le; lia). reflexivity. Qed.
 
 (* ---------- lookup tables ---------- *)
-(* the compact-u16 bytes the estimator does not count *)
-Fixpoint extra (payer : Z) (l : list ix) (can : list Z) (ts : luts) : Z :=
-  match ts with
-  | [] => 0
-  | (_, addrs) :: r =>
-      let taken := filter (fun k => memz k addrs) can in
-      let can' := filter (fun k => negb (memz k addrs)) can in
-      let nw := lenZ (filter (writable_key payer l) taken) in
-      let nr := lenZ taken - nw in
-      (match taken with [] => 0 | _ => (c16 nw - 1) + (c16 nr - 1) end) + extra payer l can' r
-  end.
-
-Lemma extra_nonneg payer l ts : forall can, 0 <= extra payer l can ts.
-Proof.
-  induction ts as [|[k addrs] r IH]; intros can; cbn [extra]; [lia|].
-  specialize (IH (filter (fun k0 => negb (memz k0 addrs)) can)).
-  destruct (filter (fun k0 => memz k0 addrs) can); [lia|].
-  match goal with |- 0 <= (c16 ?a - 1) + (c16 ?b - 1) + _ => pose proof (c16_ge1 a); pose proof (c16_ge1 b) end. lia.
-Qed.
-
 Lemma existsb_filter_nil {A} (f : A -> bool) l : existsb f l = false <-> filter f l = [].
 Proof.
   induction l as [|x l IH]; [tauto|]. cbn. destruct (f x); cbn; [split; discriminate | exact IH].
 Qed.
 
+(* the serialized tables = the looked-up index bytes + what the estimator adds per table *)
 Lemma real_tables_spec payer l ts : forall can,
-  real_tables payer l can ts =
-  (lenZ can - lenZ (fst (lookup_pass can ts))) + 34 * snd (lookup_pass can ts) + extra payer l can ts.
+  real_tables payer l can ts = (lenZ can - lenZ (fst (lookup_pass can ts))) + est_tables payer l can ts.
 Proof.
   induction ts as [|[k addrs] r IH]; intros can.
   - cbn. lia.
-  - cbn [real_tables lookup_pass extra table_take].
+  - cbn [real_tables lookup_pass est_tables table_take].
     set (taken := filter (fun k0 => memz k0 addrs) can).
     set (can' := filter (fun k0 => negb (memz k0 addrs)) can).
     specialize (IH can'). destruct (lookup_pass can' r) as [fin n] eqn:El. cbn [fst snd] in *.
     assert (Hsplit : lenZ taken + lenZ can' = lenZ can) by (apply (filter_len_split (fun k0 => memz k0 addrs) can)).
     rewrite IH.
-    destruct (existsb (fun k0 => memz k0 addrs) can) eqn:Eu.
-    + assert (Hne : taken <> []) by (intros E; apply existsb_filter_nil in E; unfold taken in *; congruence).
-      assert (Hm : forall (X : Z), match taken with [] => 0 | _ :: _ => X end = X) by (intros X; destruct taken; [congruence | reflexivity]).
-      rewrite !Hm. cbn [fst snd].
-      set (nw := lenZ (filter (writable_key payer l) taken)). lia.
-    + apply existsb_filter_nil in Eu. fold taken in Eu. rewrite Eu in *. cbn [fst snd]. cbn in Hsplit. lia.
+    destruct taken as [|t0 tr] eqn:Et.
+    + cbn [fst]. cbn in Hsplit. lia.
+    + cbn [fst]. rewrite <- Et in *. set (nw := lenZ (filter (writable_key payer l) taken)). lia.
 Qed.
 
 Lemma lookup_pass_incl ts : forall can x, In x (fst (lookup_pass can ts)) -> In x can.
@@ -138,12 +114,11 @@ Proof.
   - apply IH; [exact Hb | intros y Hy; apply Hd; right; exact Hy].
 Qed.
 
-Theorem real_minus_estimate payer l ts :
-  let can := filter (fun k => negb (memz k (programs_of l)) && negb (memz k (signers_of payer l))) (accounts_of payer l) in
-  real_size payer l ts =
-  estimate payer l ts + (c16 (snd (lookup_pass can ts)) - 1) + extra payer l can ts.
+(* the estimate IS the serialized size, for every payer, instruction list and table list *)
+Theorem estimate_eq_real payer l ts : estimate payer l ts = real_size payer l ts.
 Proof.
-  intros can. unfold real_size, estimate. fold can.
+  unfold real_size, estimate.
+  set (can := filter (fun k => negb (memz k (programs_of l)) && negb (memz k (signers_of payer l))) (accounts_of payer l)).
   pose proof (real_tables_spec payer l ts can) as Hrt.
   pose proof (lookup_pass_incl ts can) as Hinc.
   pose proof (lookup_pass_nodup ts can) as Hnd.
@@ -157,7 +132,6 @@ Proof.
   assert (Hsplit : lenZ can + lenZ other = lenZ accounts) by (apply filter_len_split).
   assert (Hkeep : forall x, keep x = true <-> ~ In x programs /\ ~ In x signers).
   { intros x. unfold keep. rewrite andb_true_iff, !negb_true_iff, !memz_not_in. tauto. }
-  (* the static keys: what is left of [can], plus the signers and the programs *)
   assert (Hperm : Permutation (dedup (rest ++ signers ++ programs)) (rest ++ other)).
   { apply NoDup_Permutation.
     - apply dedup_nodup.
@@ -176,47 +150,8 @@ Proof.
         destruct (memz x programs) eqn:Ep; [right; apply memz_in; exact Ep|].
         unfold keep in H. rewrite Es, Ep in H. discriminate. }
   pose proof (lenZ_perm _ _ Hperm) as Hlen. unfold lenZ in Hlen. rewrite app_length in Hlen.
-  unfold lenZ in *. change (c16 0) with 1.
+  unfold lenZ in *.
   set (A' := Z.of_nat (length (dedup (rest ++ signers ++ programs)))) in *.
   assert (HA : A' = Z.of_nat (length accounts) - (Z.of_nat (length can) - Z.of_nat (length rest))) by lia.
   rewrite <- HA. rewrite Hrt. lia.
-Qed.
-
-(* the estimate is never ABOVE the serialized size ... *)
-Corollary estimate_le_real payer l ts : estimate payer l ts <= real_size payer l ts.
-Proof.
-  pose proof (real_minus_estimate payer l ts) as H. cbv zeta in H. rewrite H.
-  match goal with |- _ <= _ + (c16 ?t - 1) + extra ?p ?l ?c ?ts => pose proof (c16_ge1 t); pose proof (extra_nonneg p l ts c) end.
-  lia.
-Qed.
-
-(* ... and equal to it below the compact-u16 boundaries (fewer than 128 tables and accounts) *)
-Lemma extra_zero payer l ts : forall can, lenZ can <= 127 -> extra payer l can ts = 0.
-Proof.
-  induction ts as [|[k addrs] r IH]; intros can Hc; [reflexivity|]. cbn [extra].
-  set (taken := filter (fun k0 => memz k0 addrs) can) in *.
-  set (can' := filter (fun k0 => negb (memz k0 addrs)) can) in *.
-  assert (Hs : lenZ taken + lenZ can' = lenZ can) by (apply (filter_len_split (fun k0 => memz k0 addrs) can)).
-  assert (0 <= lenZ taken) by (unfold lenZ; lia). assert (0 <= lenZ can') by (unfold lenZ; lia).
-  rewrite IH by lia.
-  destruct (match taken with [] => true | _ => false end) eqn:Em.
-  { destruct taken; [reflexivity | discriminate]. }
-  assert (Hm : forall (X : Z), match taken with [] => 0 | _ :: _ => X end = X) by (intros X; destruct taken; [discriminate | reflexivity]).
-  rewrite Hm.
-  pose proof (filter_len_split (writable_key payer l) taken) as Hw.
-  set (nw := lenZ (filter (writable_key payer l) taken)) in *.
-  assert (0 <= nw) by (unfold nw, lenZ; lia).
-  assert (0 <= lenZ (filter (fun x => negb (writable_key payer l x)) taken)) by (unfold lenZ; lia).
-  rewrite !c16_small by lia. lia.
-Qed.
-
-Theorem estimate_eq_real payer l ts : lenZ ts <= 127 -> lenZ (accounts_of payer l) <= 127 ->
-  estimate payer l ts = real_size payer l ts.
-Proof.
-  intros Ht Ha. pose proof (real_minus_estimate payer l ts) as H. cbv zeta in H. rewrite H.
-  set (can := filter (fun k => negb (memz k (programs_of l)) && negb (memz k (signers_of payer l))) (accounts_of payer l)) in *.
-  pose proof (lookup_pass_count ts can) as Hc.
-  assert (Hcl : lenZ can <= lenZ (accounts_of payer l)).
-  { unfold can. apply filter_len_le. }
-  rewrite extra_zero by lia. rewrite c16_small by lia. lia.
 Qed.
